@@ -36,6 +36,7 @@ structure TxFacts where
   version : Nat           -- tx.Version()
   votesProducer : Bool    -- some OTVote output with VoteProducerVersion, or a Delegate vote content
   proposalType : Nat      -- CRCProposal.ProposalType (meaningful only for tx type 0x25)
+  spendsVote : Bool := false  -- some input refers to a vote output recorded in `State.Votes` ("cancel votes")
 deriving DecidableEq, Repr
 
 -- tx types (core/types/common/transaction.go)
@@ -61,8 +62,8 @@ def tReturnSideChainDepositCoin : Nat := 0x51
 def isDPOSTransaction (t : TxFacts) : Bool :=
   if t.txType ∈ [tRegisterProducer, tUpdateProducer, tCancelProducer, tActivateProducer, tIllegalProposal,
       tIllegalVote, tIllegalBlock, tIllegalSidechain, tInactiveArbitrators, tReturnDepositCoin] then true
-  else if t.txType = tTransferAsset then decide (t.version ≥ 9) && t.votesProducer
-  else false
+  else if t.txType = tTransferAsset ∧ t.version ≥ 9 ∧ t.votesProducer = true then true
+  else t.spendsVote
 
 def isCustomIDRelated (t : TxFacts) : Bool :=
   if t.txType = tCRCProposal then
